@@ -25,6 +25,6 @@ AfterStopKinds == {"SoftStop", "Status"}
 \* C07, commands that touch sockets under OS-level faults (Faults = TRUE): the listener life-cycle
 VerbsFaults    == {"AddListener", "RemoveListener", "Activate", "Deactivate", "UpdateListener", "ReturnSockets"}
 \* ... and what a client is served once the address is free again (one http route, one tcp route)
-VerbsFaultsServe == {"Activate", "Deactivate", "RemoveListener", "AddListener"}
+VerbsFaultsServe == {"Activate", "Deactivate", "AddBackend", "AddHFront", "AddTFront"}
 ServeNothingPreamble == <<[k |-> "AddListener", a |-> "hA"], [k |-> "AddListener", a |-> "tC"]>>
 =============================================================================
